@@ -243,6 +243,11 @@ def near_misses(ctx):
                                         (3, 3), {"_in0": a, "_in1": b, "_in2": c})))
     out.append(("three-operand-product", mk(prim.Product((v("_in0")[v("_0"), v("_1")], v("_in1")[v("_0"), v("_1")],
                                                           2)), (3, 3), {"_in0": a, "_in1": b})))
+    # NaN of a type that has no NaN: not a fill / operand value of any NumPy operation (and never a crash)
+    out.append(("nan-int32-operand", mk(v("_in0")[v("_0"), v("_1")] + prim.NaN(np.int32), (3, 3), {"_in0": a}, "float64")))
+    out.append(("nan-bool-operand", mk(v("_in0")[v("_0"), v("_1")] * prim.NaN(np.bool_), (3, 3), {"_in0": a}, "float64")))
+    out.append(("nan-int32-fill", mk(prim.NaN(np.int32), (3, 3), {}, "int32")))
+    out.append(("nan-bool-fill", mk(prim.NaN(np.bool_), (3, 3), {}, "bool")))
     out.append(("constant-index-subscript", mk(v("_in0")[0, v("_1")], (3, 3), {"_in0": a})))
     out.append(("diagonal-subscript", mk(v("_in0")[v("_0"), v("_0")], (3, 3), {"_in0": a})))
     d = ph((4, 3))
